@@ -38,48 +38,76 @@ pub fn is_ended_by<T: EbmlSpecification<T> + EbmlTag<T> + Clone>(current_id: u64
     )
 }
 
-#[inline(always)]
-pub fn validate_tag_path<T: EbmlSpecification<T> + EbmlTag<T> + Clone>(tag_id: u64, doc_path: impl Iterator<Item = (u64, EBMLSize, usize)>) -> bool {
-    let path = <T>::get_path_by_id(tag_id);
-    let mut path_marker = 0;
-    let mut global_counter = 0;
-    for item in doc_path {
-        let current_node_id = item.0;
-
-        if !item.1.is_known() && is_ended_by::<T>(current_node_id, tag_id) {
-            return true;
-        }
-
-        if path_marker >= path.len() {
-            return false;
-        }
-
-        match path[path_marker] {
-            PathPart::Id(id) => {
-                if id != current_node_id {
-                    return false;
-                }
-                path_marker += 1;
-            },
-            PathPart::Global((min, max)) => {
-                global_counter += 1;
-                if max.is_some() && global_counter > max.unwrap_or_default() {
-                    return false;
-                }
-                if path.len() > (path_marker + 1) && matches!(path[path_marker + 1], PathPart::Id(id) if id == current_node_id) {
-                    if min.is_some() && global_counter < min.unwrap_or_default() {
-                        return false;
-                    }
-                    path_marker += 2;
-                    global_counter = 0;
-                }
-            },
-        }
+///
+/// Returns how many of the currently open masters in `doc_path` remain open once the tag `tag_id` is encountered.
+///
+/// "Unknown" sized masters have no byte count that ends them - they end when an element shows up that cannot be one of their children (see [`is_ended_by`]).  Ending an unknown sized master also ends every master nested within it, which is only possible if all of those are of unknown size as well (a known sized master always ends at its byte count).  Therefore only the run of unknown sized masters at the end of `doc_path` is considered, and the outermost one of them that is ended by `tag_id` determines the result.
+///
+pub fn open_path_len<T: EbmlSpecification<T> + EbmlTag<T> + Clone>(tag_id: u64, doc_path: &[(u64, EBMLSize)]) -> usize {
+    let mut first_unknown = doc_path.len();
+    while first_unknown > 0 && !doc_path[first_unknown - 1].1.is_known() {
+        first_unknown -= 1;
     }
 
-    // Validate that we compared ALL parents in the path
-    path.len() == path_marker || 
-    // or that the last parent was a global whose minimum was met
-        ((path.len() - 1) == path_marker && matches!(path[path_marker], PathPart::Global((min, _)) if global_counter >= min.unwrap_or(0)))
-    
+    let mut index = first_unknown;
+    while index < doc_path.len() {
+        if is_ended_by::<T>(doc_path[index].0, tag_id) {
+            return index;
+        }
+        index += 1;
+    }
+    doc_path.len()
+}
+
+///
+/// Returns whether or not the tag `tag_id` is allowed to appear within the open masters of `doc_path` (outermost first).
+///
+/// See [`is_valid_in_path`].
+///
+#[inline(always)]
+pub fn validate_tag_path<T: EbmlSpecification<T> + EbmlTag<T> + Clone>(tag_id: u64, doc_path: impl Iterator<Item = (u64, EBMLSize, usize)>) -> bool {
+    let doc_path: Vec<(u64, EBMLSize)> = doc_path.map(|item| (item.0, item.1)).collect();
+    is_valid_in_path::<T>(tag_id, &doc_path)
+}
+
+///
+/// Returns whether or not the tag `tag_id` is allowed to appear within the open masters of `doc_path` (outermost first).
+///
+/// Any unknown sized masters that `tag_id` ends (see [`open_path_len`]) are not considered parents of the tag.  The remaining masters must match the path of the tag as defined in the specification.
+///
+pub fn is_valid_in_path<T: EbmlSpecification<T> + EbmlTag<T> + Clone>(tag_id: u64, doc_path: &[(u64, EBMLSize)]) -> bool {
+    let open_len = open_path_len::<T>(tag_id, doc_path);
+    path_matches(<T>::get_path_by_id(tag_id), &doc_path[..open_len])
+}
+
+///
+/// Returns whether or not the masters in `doc_path` are exactly what the specification `path` describes.
+///
+/// Each [`PathPart::Id`] stands for exactly one master with that id, each [`PathPart::Global`] for any run of masters whose length lies within its (min, max) bounds.
+///
+fn path_matches(path: &[PathPart], doc_path: &[(u64, EBMLSize)]) -> bool {
+    if path.is_empty() {
+        return doc_path.is_empty();
+    }
+    match path[0] {
+        PathPart::Id(id) => {
+            !doc_path.is_empty() && doc_path[0].0 == id && path_matches(&path[1..], &doc_path[1..])
+        },
+        PathPart::Global((min, max)) => {
+            // Try every allowed number of masters for the global part to stand for
+            let min_count = min.unwrap_or(0);
+            let max_count = max.unwrap_or(u64::MAX);
+            let mut skipped: usize = 0;
+            loop {
+                if skipped as u64 >= min_count && skipped as u64 <= max_count && path_matches(&path[1..], &doc_path[skipped..]) {
+                    return true;
+                }
+                if skipped == doc_path.len() {
+                    break;
+                }
+                skipped += 1;
+            }
+            false
+        },
+    }
 }
